@@ -559,7 +559,7 @@ type killCase struct {
 	hist     []op
 	point    string // self kill
 	k        int
-	killLine int // parent kill after this many ISSUE/ACK lines (0: none)
+	killLine int           // parent kill after this many ISSUE/ACK lines (0: none)
 	delay    time.Duration // extra delay before the parent's kill: spreads the kills over the transaction (coverage only)
 	dir      string
 
